@@ -22,6 +22,7 @@ type Case struct {
 	Calls   int    `json:"calls,omitempty"`
 	Pattern string `json:"pattern,omitempty"` // Retry: F = attempt fails, S = succeeds; attempts beyond the pattern succeed
 	DelayMs int    `json:"delay_ms,omitempty"`
+	DelayNs int    `json:"delay_ns,omitempty"` // RetryWithDelay: nanoseconds on top of DelayMs (delays that are no whole number of ms)
 	Typ     string `json:"typ,omitempty"` // counter type for After/Before: int | int8 | int64
 	First   int    `json:"first,omitempty"`   // Once: the callback's first result (0 = the zero value of the result type)
 	WorkMs  []int  `json:"work_ms,omitempty"` // RetryWithDelay: virtual time attempt i spends inside the callback (cycled)
@@ -238,7 +239,7 @@ func run(w *core.Worker, c Case) {
 			}
 			nontrivial = wantCalls >= 2
 		case "RetryWithDelay":
-			d := time.Duration(c.DelayMs) * time.Millisecond
+			d := time.Duration(c.DelayMs)*time.Millisecond + time.Duration(c.DelayNs)
 			var stamps, ends []time.Duration
 			var lastErr error
 			var attempts int
@@ -338,7 +339,7 @@ func patterns(maxLen int) []string {
 func TestProp(t *testing.T) {
 	r := core.Start(t, "C18")
 	defer r.Finish()
-	r.Rule("cases = one use of After/Before/Once (n in -2..8, 0..12 calls, counter types int/int8/int64, fresh no-expiry cache) or Retry/RetryWithDelay (n in -2..8, every success/failure pattern up to length 8; RetryWithDelay inside a testing/synctest bubble so that the gaps between attempts are exact) with a counting callback: runs per call, returned values, attempt counts, last error, gaps between the end of an attempt and the start of the next >= delay (attempts may themselves take virtual time); non-trivial = the callback is suppressed at least once after having been allowed (resp. >= 2 attempts); distinct by hash of the case")
+	r.Rule("cases = one use of After/Before/Once (n in -2..8, 0..12 calls, counter types int/int8/int64, fresh no-expiry cache) or Retry/RetryWithDelay (n in -2..8, every success/failure pattern up to length 8; RetryWithDelay inside a testing/synctest bubble so that the gaps between attempts are exact) with a counting callback: runs per call, returned values, attempt counts, last error, gaps between the end of an attempt and the start of the next >= delay (attempts may themselves take virtual time; delays from 1 ns, incl. fractions of a millisecond); non-trivial = the callback is suppressed at least once after having been allowed (resp. >= 2 attempts); distinct by hash of the case")
 
 	core.Monitor(r, "count-sweep", 0, func(emit func(Case)) {
 		var n int64
@@ -383,6 +384,13 @@ func TestProp(t *testing.T) {
 					}
 					emit(Case{Fn: "RetryWithDelay", N: nn, Pattern: p, DelayMs: d})
 					n++
+				}
+				// delays that are not a whole number of milliseconds (1 ns, 250 us, 1 ms - 1 ns, 1.9 ms, 7 ms + 1 ns)
+				if len(p) <= 5 {
+					for _, dn := range [][2]int{{0, 1}, {0, 250000}, {0, 999999}, {1, 900000}, {7, 1}} {
+						emit(Case{Fn: "RetryWithDelay", N: nn, Pattern: p, DelayMs: dn[0], DelayNs: dn[1]})
+						n++
+					}
 				}
 				// attempts that take time themselves: shorter than, equal to and longer than the delay
 				if len(p) <= 6 {
